@@ -565,6 +565,7 @@ def run(chk):
                        "preprocessed function bodies at named anchors; tied to the model numerals by Props/Limits/C05.lean)")
     LIM.update({k: v for k, v in gen_limits.values().items() if v is not None})
     problems = chk.prove(MODULES, AUDIT, want_leanchecker=(chk.tier == "thorough"))
+    problems = gen_limits.name_failures(chk, problems, "C05")   # name the tie theorems that fail
     exe, err = core.build_harness(HARNESS)
     if exe is None:
         chk.violation("implementation does not build: " + err[-1500:], ["build-error"], nofail=True)
